@@ -8,6 +8,12 @@ verus! {
 //@ include u02_parse.vt.rs
 
 pub mod parse { pub use super::Input; }
+/// other items of `crate::storage` that code in load.rs may name
+pub mod storage {
+    pub use super::parse;
+//@ item rust/automerge/src/storage.rs | const MAGIC_BYTES
+}
+pub use storage::MAGIC_BYTES;
 pub mod load {
 use super::*;
 use vstd::prelude::*;
